@@ -5,6 +5,7 @@ from ..facts import AnalysisBroken
 from ..engine import Engine, run_entry, mk_obj
 from ..absint import Val
 from ..port import PortModel
+from ..facts import WORD as W
 from ..terms import C, ZERO, short, is_const
 from .. import mem
 from .frame_common import BLOCK_UNIT
@@ -22,8 +23,8 @@ def check_state_for_iface(rep, prog, rule):
         mk_obj(st, 'ext:ctx', 1, kind='ext', default='unknown')
         recs = mk_obj(st, 'RECS', srec.size, kind='heap', default='sym', heap=True, weak=True)
         recs.ptr_fields = {next_off: (ZERO, ('ptr', 'RECS', ZERO))}
-        g = mk_obj(st, 'g:g_iface_states', 8, kind='global', default='unknown')
-        g.cells[((), 0)] = (8, ('pset', ('sym', 'g_iface_states@entry', 0, 0), (ZERO, ('ptr', 'RECS', ZERO))))
+        g = mk_obj(st, 'g:g_iface_states', W, kind='global', default='unknown')
+        g.cells[((), 0)] = (W, ('pset', ('sym', 'g_iface_states@entry', 0, 0), (ZERO, ('ptr', 'RECS', ZERO))))
         st.tags['known_globals'] = ('g:g_iface_states',)
         return [Val(ix.parse_type('void *'), ('ptr', 'ext:ctx', ZERO))]
     I, outs = run_entry(prog, BLOCK_UNIT, 'lltd_state_for_iface', setup, port=PortModel(), name='lltd_state_for_iface')
